@@ -86,9 +86,10 @@ Section Msg.
     else if try (prefix + 3) then Some ((prefix + 3) :: rb ++ sb)
     else None.
 
-  (* PublicKey(message=, signature=): after the repair of D13 headers 27..34, recovery id (h - 27) mod 4;
-     python-ecdsa's from_public_key_recovery_with_digest lists the candidates so that index recid
-     is the key recovered from R with that id *)
+  (* PublicKey(message=, signature=): after the repair of D13 headers 27..34, recovery id (h - 27) mod 4.
+     For ids 0, 1 python-ecdsa's from_public_key_recovery_with_digest lists the two candidates with R.x = r so
+     that index recid is the key recovered from R with that id; ids 2, 3 (R.x = r + n) are computed by the
+     library itself since the repair of D14, the way verify_message does *)
   Definition recover_pubkey (msg_utf8 sig : bytes) : option point :=
     if Nat.eqb (length msg_utf8) 0 then None else
     if negb (Nat.eqb (length sig) 65) then None else
